@@ -5,6 +5,7 @@ import (
 	"errors"
 	"fmt"
 	"net"
+	"runtime"
 	"sort"
 	"strings"
 	"sync"
@@ -68,6 +69,39 @@ func c16Call(c *core.Ctx, s string) {
 // only counts and refuses.
 var c16Lookups int32 //nolint:gochecknoglobals
 
+// c16RetransmittingClient runs a real client over an in-memory pipe until it has written a request at least three times.
+func c16RetransmittingClient(c *core.Ctx, big bool) {
+	a, b := net.Pipe()
+	var writes int32
+	done := make(chan struct{})
+	go func() {
+		defer close(done)
+		buf := make([]byte, 4096)
+		for {
+			if _, err := b.Read(buf); err != nil {
+				return
+			}
+			atomic.AddInt32(&writes, 1)
+		}
+	}()
+	cl, err := stun.NewClient(a, stun.WithRTO(2*time.Millisecond))
+	if err != nil {
+		fatalHarness("C16 first-use: " + err.Error())
+	}
+	req := stun.MustBuild(stun.TransactionID, stun.BindingRequest)
+	if big {
+		req = stun.MustBuild(stun.TransactionID, stun.BindingRequest, stun.NewSoftware(strings.Repeat("s", 280)))
+	}
+	_ = cl.Start(req, func(stun.Event) {})
+	for spins := 0; atomic.LoadInt32(&writes) < 3 && spins < 4000; spins++ {
+		time.Sleep(time.Millisecond)
+	}
+	c.Count("client_writes_before_parsing", int64(atomic.LoadInt32(&writes)))
+	_ = cl.Close()
+	_ = b.Close()
+	<-done
+}
+
 func c16InstallResolver() {
 	net.DefaultResolver = &net.Resolver{PreferGo: true, Dial: func(context.Context, string, string) (net.Conn, error) {
 		atomic.AddInt32(&c16Lookups, 1)
@@ -85,6 +119,42 @@ func c16(c *core.Ctx) {
 		}
 		c.Count("name_service_connections", int64(atomic.LoadInt32(&c16Lookups)))
 	}()
+	// The first thing a process does with the URI code - or with the code next to it - must not matter to the parser.
+	c.SectionFirst("first-use-order", 7, func(i int64, _ *gen.Rand) {
+		switch i {
+		case 0:
+			_ = stun.NewSchemeType("turns")
+		case 1:
+			_ = stun.NewProtoType("tcp")
+		case 2:
+			_ = stun.SchemeTypeTURN.String() + stun.ProtoTypeUDP.String()
+		case 3:
+			_ = stun.URI{Scheme: stun.SchemeTypeSTUN, Host: "example.org", Port: 3478, Proto: stun.ProtoTypeUDP}.String()
+		case 4:
+			_ = (stun.URI{Scheme: stun.SchemeTypeTURNS}).IsSecure()
+		case 5, 6:
+			// a client that retransmitted a request (20 bytes for i=5, 300 for i=6) and was closed: its buffers are back in
+			// the package's pools. One P, so that the parser below meets them.
+			defer runtime.GOMAXPROCS(runtime.GOMAXPROCS(1))
+			c16RetransmittingClient(c, i == 6)
+		}
+		hosts := []string{"", "a", "example.org", "[::1]", "[2001:db8::1]", "127.0.0.1"}
+		for n := 1; n <= 2100; n += 1 + n/64 {
+			hosts = append(hosts, strings.Repeat("h", n), strings.Repeat("a.", n/2)+"b")
+		}
+		for round := 0; round < 3; round++ {
+			for _, h := range hosts {
+				for _, sch := range []string{"stun", "stuns", "turn", "turns"} {
+					c16Call(c, sch+":"+h)
+					c16Call(c, sch+":"+h+":3478")
+					if sch[0] == 't' {
+						c16Call(c, sch+":"+h+"?transport=tcp")
+					}
+				}
+			}
+		}
+		c.Count("first_use_variants_run", 1)
+	})
 	maxLen := int(c.N(5, 6))
 	if c.Config == "race" {
 		maxLen = 2
